@@ -450,7 +450,12 @@ impl State {
                                             // there is no remaining case
                                             // in the disjunct, we need to
                                             // unwind to the previous
-                                            // disjunct if any.
+                                            // disjunct if any.  This disjunct is
+                                            // no longer in progress: reset the
+                                            // index, which would otherwise be
+                                            // taken for the progress of the next
+                                            // disjunct in this set.
+                                            *next_idx = 0;
                                             if self.unwind() {
                                                 //println!(" get_next_check({}): failed all cases
                                                 // of disjunct, unwinding ", cnt);
